@@ -129,8 +129,14 @@ def apply_faults(sc):
     lo, hi = window(sc)
     # frame removals first, then the faults that refer to the resulting files
     order = {"forcing_starts_late": 0, "forcing_ends_early": 1}
+    requested = {f["kind"] for f in sc["plan"]["faults"]}
     for f in sorted(sc["plan"]["faults"], key=lambda f: order.get(f["kind"], 5)):
         k = f["kind"]
+        if k == "direction_flag_wrong" and "stop_wrong_side" in requested:
+            # the two together describe a consistent run in the other direction (which is legal whenever the
+            # forcing happens to cover it): the pair is not an impossible set-up, so only one of them is applied
+            ap.notes.append("direction_flag_wrong skipped: cancels stop_wrong_side")
+            continue
         fr = s2["frames"]
         offs = fr["offsets"]
         if k == "forcing_starts_late":
